@@ -10,7 +10,7 @@ Inductive exn :=
 | KeyError | ValueError | RuntimeError | IndexError | TypeError
 | UnicodeDecodeError | ZeroDivisionError | OSError | FileNotFoundError
 | NotImplementedError | LokyRecursionError | AssertionError | StopIteration
-| OtherError.
+| ImportError | OtherError.
 
 Definition exn_eqb (a b : exn) : bool :=
   match a, b with
@@ -20,7 +20,7 @@ Definition exn_eqb (a b : exn) : bool :=
   | OSError, OSError | FileNotFoundError, FileNotFoundError
   | NotImplementedError, NotImplementedError
   | LokyRecursionError, LokyRecursionError | AssertionError, AssertionError
-  | StopIteration, StopIteration | OtherError, OtherError => true
+  | StopIteration, StopIteration | ImportError, ImportError | OtherError, OtherError => true
   | _, _ => false
   end.
 
@@ -307,3 +307,78 @@ Fixpoint bsN (l : list N) : string :=
   match l with [] => EmptyString | n :: tl => String (ascii_of_N n) (bsN tl) end.
 Definition nl : string := String (ascii_of_nat 10) EmptyString.
 Definition ln (s : string) : string := s ++ nl.
+
+(* ---------- dynamically typed scalars (variables that hold int / str / None / an exception) ---------- *)
+Inductive dyn := DNone | DInt (z : Z) | DStr (s : string) | DExn (e : exn).
+Definition dyn_eqb (a b : dyn) : bool :=
+  match a, b with
+  | DNone, DNone => true
+  | DInt x, DInt y => Z.eqb x y
+  | DStr x, DStr y => String.eqb x y
+  | DExn x, DExn y => exn_eqb x y
+  | _, _ => false
+  end.
+Definition dyn_is_none (a : dyn) : bool := match a with DNone => true | _ => false end.
+Definition dyn_truth (a : dyn) : bool :=
+  match a with
+  | DNone => false | DInt z => negb (Z.eqb z 0)
+  | DStr s => negb (String.eqb s EmptyString) | DExn _ => true
+  end.
+(* int(x) *)
+Definition dyn_int (a : dyn) : res Z :=
+  match a with DInt z => Ok z | DStr s => py_int_of_str s | _ => Err TypeError end.
+(* x used as a number *)
+Definition dyn_num (a : dyn) : res Z :=
+  match a with DInt z => Ok z | _ => Err TypeError end.
+Definition str_ltb (a b : string) : bool :=
+  match String.compare a b with Lt => true | _ => false end.
+Definition dyn_ltb (a b : dyn) : res bool :=
+  match a, b with
+  | DInt x, DInt y => Ok (Z.ltb x y)
+  | DStr x, DStr y => Ok (str_ltb x y)
+  | _, _ => Err TypeError
+  end.
+Definition dyn_leb (a b : dyn) : res bool :=
+  match a, b with
+  | DInt x, DInt y => Ok (Z.leb x y)
+  | DStr x, DStr y => Ok (negb (str_ltb y x))
+  | _, _ => Err TypeError
+  end.
+Definition dyn_of_opt_int (o : option Z) : dyn := match o with Some z => DInt z | None => DNone end.
+Definition dyn_of_opt_str (o : option string) : dyn := match o with Some s => DStr s | None => DNone end.
+
+(* str.split() with no argument: split on runs of whitespace, no empty fields *)
+Fixpoint split_ws_aux (s : string) (cur : string) : list string :=
+  match s with
+  | EmptyString => match cur with EmptyString => [] | _ => [cur] end
+  | String c s' =>
+      if is_space c then
+        match cur with EmptyString => split_ws_aux s' EmptyString
+                  | _ => cur :: split_ws_aux s' EmptyString end
+      else split_ws_aux s' (cur ++ String c EmptyString)
+  end.
+Definition split_ws (s : string) : list string := split_ws_aux s EmptyString.
+Definition unpack2 {A} (l : list A) : res (A * A) :=
+  match l with [a; b] => Ok (a, b) | _ => Err ValueError end.
+(* `a or b` on an optional int: falsy when None or 0 *)
+Definition opt_int_or (o : option Z) (d : Z) : Z :=
+  match o with Some v => if Z.eqb v 0 then d else v | None => d end.
+Definition fs_read (fs : dict string) (name : string) : res string :=
+  match dget fs name with Some s => Ok s | None => Err FileNotFoundError end.
+(* try ... except <classes> as e: the caught exception is stored by [bind] before the handler runs *)
+Definition try_except_as {L R} (body : stm L R) (classes : list exn) (catch_all : bool)
+           (bind : exn -> L -> L) (handler : stm L R) : stm L R :=
+  fun l => match body l with
+           | (Raise e, l') =>
+               if catch_all || existsb (exn_isa e) classes then handler (bind e l') else (Raise e, l')
+           | r => r end.
+Definition oracle_raise {L R} (o : option exn) : stm L R :=
+  fun l => match o with Some e => (Raise e, l) | None => (Norm, l) end.
+(* statement-level call of a generated function returning a value *)
+Definition call_ret {L R A} (get : L -> list eff) (set : list eff -> L -> L)
+           (f : list eff -> ctl A * list eff) (store : A -> L -> L) (noret : L -> L) : stm L R :=
+  fun l => match f (get l) with
+           | (Ret v, e') => (Norm, store v (set e' l))
+           | (Raise x, e') => (Raise x, set e' l)
+           | (_, e') => (Norm, noret (set e' l))
+           end.
